@@ -326,6 +326,19 @@ def rel_queries(db, prop):
             qs.append(Query('rel/leaf', q['c'], checks=['--no-standard-checks', '--bounds-check', '--pointer-check'], meta=q['meta'], timeout=600))
         except (bx2c.Unsupported, f77c.Unsupported) as e:
             skipped.append(('randomize_particle', 'NOT COVERED: ' + str(e)[:300]))
+    if prop == 'C01' and not only:
+        import relk
+        jobs = [('rel/k/%s' % n, (lambda n=n: relk.build(db, prog, n, propid='C01'))) for n in sorted(relk.PAIRS)]
+        jobs += [('rel/wrapper/%s' % n, (lambda n=n: relk.build_wrapper_query(db, n, propid='C01'))) for n in sorted(relk.WRAPPERS)]
+        jobs += [('rel/k/decay0_fermi', lambda: relk.build_fermi(db, prog, propid='C01')), ('rel/k/decay0_tgold', lambda: relk.build_tgold(db, prog, propid='C01')),
+                 ('rel/table/plog69', lambda: relk.build_table_query(db, prog, 'BJ69__plog69', 'plog69', propid='C01'))]
+        for qid, mk in jobs:
+            try:
+                q = mk()
+                q['meta']['what'] = 'rel'
+                qs.append(Query(qid, q['c'], checks=['--no-standard-checks', '--bounds-check', '--pointer-check'], meta=q['meta'], timeout=600))
+            except (bx2c.Unsupported, f77c.Unsupported, KeyError) as e:
+                skipped.append((qid, 'NOT COVERED: ' + str(e)[:300]))
     cands = sorted(l3.l3_routines(db).items()) + [(k, 'kernel') for k in KERNELS if k in db['funcs']]
     for name, kind in cands:
         if only and name not in only:
